@@ -24,7 +24,7 @@ RULE = ('A valid model (chains with worm / helical matings, optional data, duty-
         'using the exact rational factor (magnitudes agree to 0.5 ulp). Oracle (metamorphic): same outcome class at '
         'construction, declaration and simulation (success, or the same exception type); same number of instants '
         '(stop instant); time axis and every recorded series (positions .. stresses, currents, duty cycle) equal in SI '
-        'within 1e-7 relative of the series scale. Cases whose discrete decisions (timer windows vs grid, stop '
+        'within 1e-7 relative of the series scale; in half of the cases also a snapshot at the same instant strictly inside the recorded range (target written in seconds on one side, in another time unit on the other; cells equal within 1e-6 of the series scale, same success / failure). Cases whose discrete decisions (timer windows vs grid, stop '
         'comparison, lock decisions, rule window) lie within 1e-6 of their threshold are counted and only compared '
         'for outcome class. ties: timer windows ending EXACTLY on a simulated instant (decimal step, window of 2^j steps), '
         'compared without the near-threshold discard. constructors: every component constructor argument (incl. the four worm pressure angles '
@@ -250,6 +250,51 @@ def check(case) -> Result:
                     f'series {key} differs first at instant {k}: {x[k]!r} as generated vs {y[k]!r} re-expressed '
                     f'(scale {scale!r}, {len(bad)} of {len(x)} samples); changed kinds {sorted(changed["kinds"])}')
             return res
+    snap = case.get('snap')
+    if snap and a.n >= 2 and a.t[-1] > a.t[0]:
+        # snapshots are physical outputs too: the same instant, written in seconds for one powertrain and in another time
+        # unit for the other, strictly inside the recorded range; all columns requested in SI units
+        import contextlib
+        import io
+        t_si = float(a.t[0] + (a.t[-1] - a.t[0]) * snap['frac'])
+        tunits = list(U.UNITS['Time'])
+        u2 = tunits[snap['unit'] % len(tunits)]
+        dfs = []
+        for bx, tq in ((ba, U.cls('Time')(t_si, 'sec')), (bb, U.cls('Time')(float(U.convert_exact('Time', t_si, 'sec', u2)), u2))):
+            try:
+                with contextlib.redirect_stdout(io.StringIO()):
+                    dfs.append(bx.powertrain.snapshot(target_time=tq, stress_unit='Pa', print_data=False))
+            except Exception as e:  # noqa
+                dfs.append(e)
+        if isinstance(dfs[0], Exception) != isinstance(dfs[1], Exception):
+            res.bad('C07/snapshot-outcome-differs', f'snapshot at {t_si!r} s (recorded range {a.t[0]!r}..{a.t[-1]!r} s): as generated '
+                    f'{dfs[0] if isinstance(dfs[0], Exception) else "ok"!r}, re-expressed (target in {u2}) '
+                    f'{dfs[1] if isinstance(dfs[1], Exception) else "ok"!r}')
+            return res
+        if not isinstance(dfs[0], Exception):
+            da, db = dfs
+            if list(da.columns) != list(db.columns) or da.shape != db.shape:
+                res.bad('C07/snapshot-columns-differ', f'snapshot columns {list(da.columns)} vs {list(db.columns)}')
+                return res
+            for col in da.columns:
+                var = col.split(' (')[0]
+                for i in range(da.shape[0]):
+                    key = f'{i}:{var}'
+                    x, y = float(da[col].iloc[i]), float(db[col].iloc[i])
+                    if np.isnan(x) and np.isnan(y):
+                        continue
+                    sc = 1e-300
+                    if key in sa and sa[key] is not None and len(sa[key]):
+                        sc = max(float(np.max(np.abs(sa[key]))), float(np.max(np.abs(sb[key]))), 1e-300,
+                                 1e-6 * _natural_scale(mdl, key, base))
+                    else:
+                        sc = max(abs(x), abs(y), 1e-300)
+                    if not abs(x - y) <= 1e-6 * sc:
+                        res.bad(f'C07/snapshot-differs/{var.replace(" ", "-")}',
+                                f'snapshot at {t_si!r} s, element {i}, {col}: {x!r} as generated vs {y!r} with re-expressed '
+                                f'units (target written in {u2}; scale {sc!r}); changed kinds {sorted(changed["kinds"])}')
+                        return res
+            res.classes += ('snapshot-compared',)
     res.classes += ('compared', 'self-locking' if mdl.self_locking else 'free',
                     'stop' if base.get('stop') else 'no-stop', 'controlled' if base.get('control') else 'uncontrolled')
     return res
@@ -355,6 +400,8 @@ def s_case(draw, max_len=5, max_steps=30):
                         'threshold': G.qty(STOP_KIND[sensor], thr, draw(G.s_unit(STOP_KIND[sensor])))}
         hist[0]['stop'] = True
     case['reunits'] = draw(st.lists(st.integers(0, 16), min_size=90, max_size=90))
+    if draw(st.booleans()):
+        case['snap'] = {'frac': draw(st.floats(0.02, 0.98)), 'unit': draw(st.integers(0, 3))}
     return case
 
 
